@@ -2,7 +2,12 @@
    argv: [sizeof(chain * )] [sizeof(chain)] as measured on the real code by `harness --sizes`
    (the model and its theorems are parametric in both). Per op: the result line, then the event
    line "e ..." (allocator / lifetime events of that op); after the last op the destructor's. *)
-(* the hash functions of the harness's Hasher, NOT reduced to 32 bits: the model does that itself *)
+(* the hash functions of the harness's Hasher, NOT reduced to 32 bits: the model does that itself.
+   Line 1 is "hash <kind> [tmp]"; the hash is FIXED here, at construction: the harness's "reseed <kind>" lines (the caller's
+   hasher object changes state after the map copied it) and the "tmp" flag (map constructed from a temporary hasher) are
+   ignored.  Kind 5 = the signed-key instantiation with frg::hash<int64_t>: keys arrive as their 64-bit two's complement
+   pattern x, and (unsigned)(v ^ (v >> 32)) of the sign-extended value is low32(x) xor high32(x), the same function of the key
+   value as kind 3 -- whatever C++ integer type the harness passes the key as. *)
 let m32 = 0xFFFFFFFFL
 let hash_of kind : n -> n = fun k ->
   let x = i64_of_n k in
@@ -10,7 +15,7 @@ let hash_of kind : n -> n = fun k ->
     | 0 -> x
     | 1 -> 7L
     | 2 -> Int64.unsigned_rem x 3L
-    | 3 -> Int64.logand (Int64.logxor x (Int64.shift_right_logical x 32)) m32
+    | 3 | 5 -> Int64.logand (Int64.logxor x (Int64.shift_right_logical x 32)) m32
     | _ -> Int64.shift_right_logical x 28)
 
 let psz = n_of_string (if Array.length Sys.argv > 1 then Sys.argv.(1) else "8")
@@ -29,7 +34,7 @@ let show_evs es = "e" ^ String.concat "" (List.map show_ev es) ^ "\n"
 
 let body lines =
   let kind, ops = match lines with
-    | l :: r when (match words l with ["hash"; _] -> true | _ -> false) ->
+    | l :: r when (match words l with "hash" :: _ :: _ -> true | _ -> false) ->
       (int_of_string (List.nth (words l) 1), r)
     | _ -> (0, lines) in
   let hash = hash_of kind in
